@@ -72,6 +72,7 @@ fn c05() -> PropSpec {
         thorough_runs: 12_000_000,
         required_probes: &[],
         extra: None,
+        run: None,
         assumptions: COMMON_ASSUMPTIONS,
     }
 }
@@ -166,6 +167,7 @@ fn c06() -> PropSpec {
         thorough_runs: 12_000_000,
         required_probes: &[],
         extra: None,
+        run: None,
         assumptions: COMMON_ASSUMPTIONS,
     }
 }
@@ -230,6 +232,7 @@ fn c11() -> PropSpec {
         thorough_runs: 12_000_000,
         required_probes: &[],
         extra: None,
+        run: None,
         assumptions: COMMON_ASSUMPTIONS,
     }
 }
@@ -306,6 +309,7 @@ fn c12() -> PropSpec {
         thorough_runs: 4_000_000,
         required_probes: &[],
         extra: None,
+        run: None,
         assumptions: COMMON_ASSUMPTIONS,
     }
 }
@@ -386,6 +390,7 @@ fn c07() -> PropSpec {
         thorough_runs: 8_000_000,
         required_probes: &[],
         extra: None,
+        run: None,
         assumptions: COMMON_ASSUMPTIONS,
     }
 }
@@ -452,6 +457,7 @@ fn c08() -> PropSpec {
         thorough_runs: 8_000_000,
         required_probes: &[],
         extra: None,
+        run: None,
         assumptions: COMMON_ASSUMPTIONS,
     }
 }
@@ -506,6 +512,7 @@ fn c10() -> PropSpec {
         thorough_runs: 6_000_000,
         required_probes: &[],
         extra: None,
+        run: None,
         assumptions: COMMON_ASSUMPTIONS,
     }
 }
@@ -557,7 +564,102 @@ fn c13() -> PropSpec {
         thorough_runs: 8_000_000,
         required_probes: &[],
         extra: None,
+        run: None,
         assumptions: COMMON_ASSUMPTIONS,
+    }
+}
+
+// ---- C15 -------------------------------------------------------------------------------------
+
+fn check_c15(l: &Ledger, _e: &[(String, String)], _s: &PropSpec) -> Vec<Violation> {
+    crate::oracle_rtt::check_c15(l).0
+}
+
+fn sig_c15(l: &Ledger) -> Vec<u64> {
+    let (_, f) = crate::oracle_rtt::check_c15(l);
+    if f.samples >= 3 && (f.retransmitted_completed > 0 || f.gap_near_600 > 0 || f.gran_dominates > 0) {
+        let (rc, rm, rto) = l.cfg.rc_rm_rto();
+        vec![hash_of(&(f.samples.min(40), f.retransmitted_completed.min(5), f.gap_near_600.min(3), f.resets.min(3), f.gran_dominates.min(5), rc, rm, rto))]
+    } else {
+        vec![]
+    }
+}
+
+fn c15() -> PropSpec {
+    let mut p = Profile::base("rtt");
+    p.p_reliable = 0;
+    p.mech_w = [8, 1, 0, 0, 2];
+    p.p_fp = 100;
+    p.n_app = (4, 120);
+    p.n_inj = (0, 2);
+    p.inj_w = [1, 1, 0, 1, 0, 0, 1, 2, 0, 1];
+    p.app_gap_ns = (1_000_000, 30 * SEC);
+    p.p_gap_600s = 60;
+    p.p_delay = 400;
+    p.p_drop = 60;
+    p.p_dup = 30;
+    p.p_delay_huge = 10;
+    p.p_srv_silent = 40;
+    p.p_srv_think = 200;
+    p.p_srv_integ = 20;
+    p.p_corrupt = 5;
+    p.p_splice = 0;
+    p.p_timer_late = 60;
+    p.p_timer_very_late = 10;
+    p.p_short_buf = 10;
+    p.p_default_timing = 150;
+    p.max_tx = &[1, 2, 10, 10];
+    p.p_swarm_off = 100;
+    p.p_perfect = 20;
+    p.lat_ns = (1000, 400_000_000);
+    PropSpec {
+        id: "C15",
+        tag: 15,
+        level: "exploration",
+        profile: p,
+        opts: RunOpts::default(),
+        check: check_c15,
+        signature: sig_c15,
+        rule: "seeded random histories on unreliable transport (4-120 transactions per run, response delays from microseconds to beyond the first retransmission, some completed by 401/Retry, idle gaps and stalls drawn around 600 s, arbitrary configured RTO and granularity); after every send and every response the client's RTO (H2) and the first interval announced through the public API are compared with a double-precision RFC 6298 reference within 1e-5 relative + 1 us; non-trivial = at least 3 samples and at least one of {a retransmitted transaction completed, a gap within 1 s of 600 s, granularity dominating 4*RTTVAR}; distinct = distinct (sample count, those counters, Rc, Rm, configured RTO)",
+        quick_runs: 60_000,
+        thorough_runs: 1_500_000,
+        required_probes: &[],
+        extra: None,
+        run: None,
+        assumptions: COMMON_ASSUMPTIONS,
+    }
+}
+
+// ---- C16 -------------------------------------------------------------------------------------
+
+fn check_custom(l: &Ledger, _e: &[(String, String)], _s: &PropSpec) -> Vec<Violation> {
+    l.custom.clone()
+}
+
+fn sig_custom(l: &Ledger) -> Vec<u64> {
+    l.custom_sigs.clone()
+}
+
+fn c16() -> PropSpec {
+    PropSpec {
+        id: "C16",
+        tag: 16,
+        level: "exploration",
+        profile: Profile::base("stream"),
+        opts: RunOpts::default(),
+        check: check_custom,
+        signature: sig_custom,
+        rule: "streams of 1-3 generated STUN packets (0-1000 attribute bytes each, zero-length messages included, optionally one damaged header) under two seeded random chunkings each (empty and one-byte chunks, cuts inside the first or a later header, chunks spanning packets, byte-by-byte), buffer sizes from 24 bytes below to 64 above the largest packet; every call of the real StunPacketDecoder is compared with an independent model; systematic part: every 1- and 2-cut chunking of generated streams up to 110 (quick) / 300 (thorough) bytes; non-trivial = at least one cut; distinct = distinct (set of cut position classes relative to header/packet boundaries, number of packets, buffer slack sign, damaged header, which packets are zero-length)",
+        quick_runs: 1_500_000,
+        thorough_runs: 40_000_000,
+        required_probes: &[],
+        extra: Some(crate::stream::extra_exhaustive),
+        run: Some(crate::stream::run_stream),
+        assumptions: &[
+            "the stream is delivered in order and without loss (TCP); chunking, timing and segmentation are arbitrary",
+            "the model of the expected results is written from the property statement, independent of the implementation",
+            "sampling, not proof, except for the exhaustive 1-/2-cut sweep of the listed streams",
+        ],
     }
 }
 
@@ -597,12 +699,13 @@ fn c17() -> PropSpec {
         thorough_runs: 6_000_000,
         required_probes: &[],
         extra: None,
+        run: None,
         assumptions: COMMON_ASSUMPTIONS,
     }
 }
 
 pub fn all() -> Vec<PropSpec> {
-    vec![c05(), c06(), c07(), c08(), c10(), c11(), c12(), c13(), c17()]
+    vec![c05(), c06(), c07(), c08(), c10(), c11(), c12(), c13(), c15(), c16(), c17()]
 }
 
 pub fn find(id: &str) -> Option<PropSpec> {
